@@ -62,6 +62,9 @@ MUTANTS = [  # (contract module, qualname, file, regex, replacement, expect)  ex
  ("contracts.c01", "Inference._prune_bayesian_model", "pgmpy/inference/base.py", r"d_connected = set.union\(\*d_connected.values\(\)\).union\(evidence.keys\(\)\)", "d_connected = set.union(*d_connected.values())", "break"),
  ("contracts.c01", "Inference._prune_bayesian_model", "pgmpy/inference/base.py", r"bn = bn.get_ancestral_graph\(list\(variables\) \+ list\(evidence.keys\(\)\)\)", "bn = bn.get_ancestral_graph(list(variables))", "break"),
  ("contracts.c01", "Inference._prune_bayesian_model", "pgmpy/inference/base.py", r"        bn = self.model.subgraph\(d_connected\)\n        evidence = ", "        reachable = d_connected\n        bn = self.model.subgraph(reachable)\n        evidence = ", "hold"),
+ ("contracts.c15", "DAG.add_node", "pgmpy/base/DAG.py", r"        if latent:\n            self.latents.add\(node\)\n\n        super\(DAG, self\).add_node", "        super(DAG, self).add_node", "break"),
+ ("contracts.c15", "DAG.add_nodes_from", "pgmpy/base/DAG.py", r"                self.add_node\(node=nodes\[index\], latent=latent\[index\]\)", "                self.add_node(node=nodes[0], latent=latent[index])", "break"),
+ ("contracts.c15", "UndirectedGraph.add_edges_from", "pgmpy/base/UndirectedGraph.py", r"            for edge in ebunch:\n                self.add_edge\(edge\[0\], edge\[1\]\)", "            for edge in ebunch:\n                self.add_edge(edge[0], edge[0])", "break"),
 ]
 
 
